@@ -581,6 +581,30 @@ impl<'a> Gen<'a> {
                 }
             }
             let mut cmds: Vec<Shape> = names.into_iter().map(|c| self.command(depth, c)).collect();
+            // the "external subcommand" idiom: a last alternative that takes any other word
+            // and everything after it
+            if self.sw.any && self.sw.alts && self.r.chance(1, 6) {
+                cmds.push(Shape::Seq(
+                    vec![
+                        Shape::Pos {
+                            metavar: "EXTERNAL",
+                            ty: Ty::Str,
+                            strict: 0,
+                            help: None,
+                        },
+                        Shape::Wrap(
+                            W::Many { catch: false },
+                            Box::new(Shape::Any {
+                                metavar: "REST",
+                                anywhere: false,
+                                pred: 0,
+                                help: None,
+                            }),
+                        ),
+                    ],
+                    false,
+                ));
+            }
             let c = if cmds.len() == 1 && self.r.chance(1, 2) {
                 cmds.pop().unwrap()
             } else {
